@@ -357,7 +357,8 @@ class World:
         if init is not None:
             it.call_func(FuncRef(owner.module, init,
                                  owner.name + '.__init__', self_obj=obj,
-                                 owner=owner),
+                                 owner=owner,
+                                 closure=getattr(owner, 'closure', None)),
                          args, kwargs, node)
         return obj
 
@@ -377,9 +378,11 @@ class World:
         return False
 
     def local_class(self, node, fr, it):
-        return ClassRef(node.name, tuple(ast.unparse(b).split('.')[-1]
-                                         for b in node.bases),
-                        fr.module, node)
+        c = ClassRef(node.name, tuple(ast.unparse(b).split('.')[-1]
+                                      for b in node.bases),
+                     fr.module, node)
+        c.closure = fr          # methods see the defining function's locals
+        return c
 
     # ----------------------------------------------- model dispatch ----
 
@@ -391,13 +394,15 @@ class World:
             if isinstance(m, ast.FunctionDef):
                 decos = [ast.unparse(d) for d in m.decorator_list]
                 if 'property' in decos:
-                    return it.call_func(FuncRef(owner.module, m, name,
-                                                self_obj=obj), [], {})
+                    return it.call_func(FuncRef(
+                        owner.module, m, name, self_obj=obj,
+                        closure=getattr(owner, 'closure', None)), [], {})
                 if 'staticmethod' in decos:
                     return FuncRef(owner.module, m,
                                    owner.name + '.' + name, owner=owner)
                 return FuncRef(owner.module, m, owner.name + '.' + name,
-                               self_obj=obj, owner=owner)
+                               self_obj=obj, owner=owner,
+                               closure=getattr(owner, 'closure', None))
             if isinstance(m, ast.Assign):
                 return it.eval(m.value, Frame(module=owner.module))
             if name in ('items', 'keys', 'values') and \
@@ -478,6 +483,18 @@ class World:
             a = a.seq
         if isinstance(b, MList):
             b = b.seq
+        if isinstance(a, (set, frozenset)) and isinstance(
+                b, (set, frozenset)) and any(S.is_sym(x) for x in
+                                             list(a) + list(b)):
+            # sets with symbolic members: mutual inclusion
+            def inc(xs, ys):
+                parts = []
+                for x in xs:
+                    alts = [S.as_bool_term(self.eq_model(x, y, it))
+                            for y in ys]
+                    parts.append(z3.Or(*alts) if alts else z3.BoolVal(False))
+                return z3.And(*parts) if parts else z3.BoolVal(True)
+            return z3.And(inc(a, b), inc(b, a))
         if isinstance(a, (tuple, list)) and isinstance(b, (tuple, list)):
             if len(a) != len(b):
                 return False
